@@ -42,6 +42,8 @@ def correspondence(ctx, batch):
         cmps = common.cmps_choice(rng)
         if i % 8 == 0:
             samples, cmps = gen.gen_chain_samples(rng), []
+        elif i % 8 == 1:
+            samples, cmps = [{k: v} for k, v in gen.gen_two_pass_merge(rng).items()], []
         for v in [samples] + variants(rng, samples, 3):
             stages.stage_generate(batch, v, registry)
             if rng.random() < 0.4:
@@ -127,6 +129,10 @@ def falsify(ctx):
         cmps = common.cmps_choice(rng)
         if r > .92:
             samples, cmps = gen.gen_chain_samples(rng), []
+        elif r > .84:
+            # similar nested models introduced by different samples: a required field of type X in one, an already
+            # optional union in the other — which one the registry meets first follows the sample order
+            samples, cmps = [{k: v} for k, v in gen.gen_two_pass_merge(rng).items()], []
         vs = variants(rng, samples, ctx.n(4, 24))
         if i == 0:
             samples, vs = f5_witness()          # the recorded finding, found by the proof of C07R.merge_success_perm_false
